@@ -1,4 +1,5 @@
 import CnlDriver.CS
+import CnlModel.ScaledMixed
 import CnlModel.Layered
 import CnlModel.ScaledFloat
 import CnlModel.Elastic
@@ -249,6 +250,19 @@ def checkC04 (toks : List String) (res : String) : Option Verdict :=
     -- C04.unsigned_power_value_wraps is no longer excused, such an instantiation is ill-formed)
     some { model := showRes showNum m, spec := spec, cls := "", branch := "cvt" ++ (if es < ed then "/narrow" else if es > ed then "/widen" else "/same"),
            nontrivial := constrained }
+  | ["cvtx", rs, st, es, rd, dt, ed, v] => do
+    -- conversion between scaled integers of DIFFERENT radixes: exact when representable, else truncated toward zero
+    let rs ← rs.toNat?; let S ← parseIntTy st; let es ← es.toInt?; let rd ← rd.toNat?; let D ← parseIntTy dt; let ed ← ed.toInt?; let v ← v.toInt?
+    let m := ScaledMixed.convert S es rs D ed rd v
+    let pw (r : Nat) (e : Int) : Rat := if e ≥ 0 then (r : Rat) ^ e.toNat else 1 / ((r : Rat) ^ (-e).toNat)
+    -- the multiplications (all done first) must fit the source representation type, as the property's own restriction
+    let mul : Int := v * (if es > 0 then (rs : Int) ^ es.toNat else 1) * (if ed < 0 then (rd : Int) ^ (-ed).toNat else 1)
+    let fits := S.inRange mul && (es ≤ 0 || S.inRange (v * (rs : Int) ^ es.toNat))
+    let q : Rat := (v : Rat) * pw rs es / pw rd ed
+    let t : Int := if q < 0 then -((-q).floor) else q.floor
+    let spec : Option Bool := if fits && D.inRange t then some (res == s!"sc({D.toString},{ed},{rd}):{t}") else none
+    some { model := showRes (fun r => s!"sc({r.1.toString},{ed},{rd}):{r.2}") m, spec := spec,
+           branch := "cvtx/" ++ (if es > 0 && ed > 0 then "both-positive" else if es < 0 && ed < 0 then "both-negative" else "mixed"), nontrivial := spec.isSome }
   | ["tof", rx, st, es, fm, v] => do
     -- scaled integer -> floating point: must be the correctly rounded value of rep * radix^exp
     let rx ← rx.toNat?; let _S ← parseIntTy st; let es ← es.toInt?; let f ← FloatIO.parseFmt fm; let v ← v.toInt?
